@@ -210,6 +210,12 @@ V("v_imagecontent_validate", "validate", "ImageContent::validate: size unchanged
 V("v_layersdata_validate", "validate", "LayersData::validate: Ok iff every tilemap layer references a tileset that exists (so write_cel's 'missing tileset' expect is unreachable)", ["layer::LayersData::validate"], fn="LayersData::validate", witness="x_usable_after_load")
 V("v_tilesets_validate", "validate_tilesets", "TilesetsById::validate for EVERY tileset table: Ok => the same tileset ids survive; each has its pixels embedded (a tileset without embedded pixels is refused) and validated (same data; indexed pixels all in the palette); id, tile count, tile size, base index, name and external reference unchanged",
   ["tileset::TilesetsById::validate"], fn="TilesetsById::validate", witness=["x_refusals", "x_usable_after_load"])
+ACCESSORS = [('AsepriteFile', 'width'), ('AsepriteFile', 'height'), ('AsepriteFile', 'size'), ('AsepriteFile', 'pixel_format'), ('AsepriteFile', 'is_indexed_color'), ('AsepriteFile', 'transparent_color_index'), ('AsepriteFile', 'num_tags'), ('AsepriteFile', 'tag'), ('AsepriteFile', 'sprite_user_data'), ('Frame', 'id'), ('Frame', 'duration'), ('Layer', 'data'), ('Layer', 'id'), ('Layer', 'flags'), ('Layer', 'opacity'), ('Layer', 'layer_type'), ('Layer', 'is_tilemap'), ('Layer', 'user_data'), ('Layer', 'parent'), ('Cel', 'raw_cel'), ('Cel', 'is_empty'), ('Cel', 'is_tilemap'), ('Cel', 'top_left'), ('Cel', 'user_data'), ('Tag', 'from_frame'), ('Tag', 'to_frame'), ('Tag', 'animation_direction'), ('Tag', 'user_data')]
+ACC_FILE = {"AsepriteFile": "file", "Frame": "file", "Layer": "layer", "Cel": "cel", "Tag": "tags"}
+for _t, _n in ACCESSORS:
+    V("v_acc_%s_%s" % (_t.lower(), _n), "accessors", "%s::%s returns exactly the stored attribute it is documented to return (Verus contract on the real one-liner; argument / field mix-ups fail)" % (_t, _n),
+      ["%s::%s::%s" % (ACC_FILE[_t], _t, _n)], fn="%s::%s" % (_t, _n), witness=["x_roundtrip_structure", "x_routes"])
+ACC_V = ["v_acc_%s_%s" % (_t.lower(), _n) for _t, _n in ACCESSORS]
 V("v_tilemap_tile", "tilemap", "TilemapData::tile(x,y) == Some(tiles[y*w+x]) iff x<w && y<h (given tiles.len()==w*h), for all u16 coordinates",
   ["tilemap::TilemapData::tile", "tilemap::TilemapData::width", "tilemap::TilemapData::height"], fn="tile", witness="x_tilemap_views")
 V("v_tile_slice", "tilemap", "tile_slice(pixels, size, id) == pixels[id*area .. (id+1)*area] under (id+1)*area <= len; no overflow", ["file::tile_slice"], fn="tile_slice", witness="x_tilemap_views")
@@ -336,7 +342,7 @@ def prop(id, level, obls, explanation, **kw):
     d.update(kw)
     PROPS[id] = d
 
-prop("C01", "proof", ["v_dec_layer", "v_dec_layer_type", "v_dec_blend_mode", "v_dec_tags", "v_dec_anim_dir", "v_dec_ext", "v_dec_slice_key", "v_dec_slice9", "v_dec_palette", "v_palette_color", "v_dec_tileset", "v_dec_tileset_ref", "v_check_chunk_bytes"]
+prop("C01", "proof", ACC_V + ["v_dec_layer", "v_dec_layer_type", "v_dec_blend_mode", "v_dec_tags", "v_dec_anim_dir", "v_dec_ext", "v_dec_slice_key", "v_dec_slice9", "v_dec_palette", "v_palette_color", "v_dec_tileset", "v_dec_tileset_ref", "v_check_chunk_bytes"]
      + ["k_parse_chunk_type", "k_parse_pixel_format", "k_check_chunk_bytes", "k_pixel_format_accessors"] + READER + LAYER_DEC + TAGS_DEC + SLICE_DEC
      + ["k_palette_chunk_20", "k_palette_chunk_26", "k_palette_chunk_35"] + EXT_DEC + TS_DEC + ["v_read_aseprite", "v_parse_pixel_format", "v_parse_frame", "v_num_frames", "v_num_layers", "v_file_layer", "v_file_frame", "x_decoder_contracts", "x_roundtrip_structure", "x_header_extremes"],
      "Chunk decoders (layer, tags, external files, palette, tileset header, slice keys) are Verus contracts on the real text for EVERY payload length and entity count, field by field against the file-format layout, modulo the reader-primitive contract; the reader primitives and the enum decoders are Kani contracts (enums over their whole domain, primitives and a few decoder shapes on fixed payload sizes with symbolic contents). The composition (header, frame dispatch, accessors) cannot be executed symbolically by Kani nor extracted for Verus and is a bounded stand-in (x_*).")
@@ -355,7 +361,7 @@ prop("C07", "exploration", ["v_read_aseprite", "v_parse_frame", "v_celsdata_add_
      "Mostly glue and zlib: bounded exploration over seeded models x ~30 encoding choices; contract part: ignorable chunk codes map to the three ignorable kinds (all u16), trailing payload bytes do not change a decoder's result (layer / tileset shapes with slack bytes).")
 prop("C08", "proof", ["v_write_tilemap_cel", "v_dec_tilemap", "v_dec_bitmask", "v_dec_tileset", "k_tile_parse", "k_tile_bitmask_header", "k_tilemap_bits", "k_pixels_per_tile", "v_tilemap_tile", "v_tilemap_lookup", "v_tile_offsets", "v_tile_slice", "v_pixels_per_tile", "v_write_tilemap_cel", "x_tilemap_views"],
      "Tile word decode, tile lookup and tile slicing are contracts over unbounded sizes; the Tilemap / Tileset views need a loaded sprite and are compared with each other and with the model on seeded sprites.")
-prop("C09", "proof", ["v_compute_parents", "v_from_vec", "v_is_visible", "v_frame_image", "x_forest_exhaustive"],
+prop("C09", "proof", ["v_acc_layer_parent", "v_compute_parents", "v_from_vec", "v_is_visible", "v_frame_image", "x_forest_exhaustive"],
      "compute_parents is proved by Verus on the real text for ALL layer sequences (any length, any depth) whose first level is 0 - the forests of the property are a subset; from_vec establishes that precondition; Layer::is_visible is proved equal to 'own flag and all ancestors' flags' for every table satisfying the parent contract. Layer::parent and the compositing gate are exhaustively executed for every forest of up to 6 (quick) / 8 (thorough) layers and every flag assignment.")
 prop("C10", "proof", UD_V + ["v_dec_userdata"] + UD_DEC + ["x_decoder_contracts", "x_userdata_exhaustive", "x_roundtrip_structure"],
      "The attachment rule is a Verus contract on the REAL code, extracted each run, for unbounded tables and chunk sequences: ParseInfo::add_user_data attaches a record to the entity named by the current context and changes nothing else (add_layer / add_cel / add_tags / add_slice / set_tag_user_data / CelsData::cel_mut likewise), and parse_frame - the chunk dispatch - updates that context per chunk kind exactly by the rule (fold over the chunk sequence; ignorable chunks and the new palette leave it untouched, tags only count in frame 0, a legacy palette selects the sprite). Assumed in that unit: the decoders' results (their own contracts are the dec_* units) and the chunk framing. The same rule is additionally executed for all admissible chunk sequences up to length 5 / 6 through the public API; the user-data chunk decoder is a Verus (unbounded) and Kani (fixed shapes) contract.")
@@ -373,4 +379,4 @@ prop("C17", "proof", ["k_mul_un8", "k_blend8", "k_merge", "k_normal_alpha", "k_p
      + ["k_ch_" + m for m in ["multiply", "screen", "overlay", "darken", "lighten", "color_dodge", "color_burn", "hard_light", "difference", "exclusion", "divide"]] + ["k_mode_addition", "k_mode_subtract", "x_hsl_kernels", "x_blend_public_api", "x_tilemap_views", "v_write_raw_cel", "v_write_tilemap_cel"],
      "Observation point Frame::image: both rasterisers are proved (Verus, real text) to hand every source pixel to the blend function with the opacity product round8(layer, cel) and to write its result unchanged, so the laws of the blend functions carry over to frame images. The three laws are proved for all 19 modes (HSL included: alpha never flows through f64) from the contracts of normal / merge with every other callee uninterpreted. Range clause: integer modes via the leaf contracts (reference value in 0..=255 and equal to the truncated result) and normal's full-domain safety; soft light range proved; HSL packed range only bounded-exec.")
 prop("C18", "exploration", ["x_utils"], "util.rs uses iterator chains and IntMap; bounded-exec on all sizes 1..8 x 1..8 plus seeded sizes and palettes.")
-prop("C19", "proof", ROUTES_V + ["v_layer_image", "v_write_cel", "v_frame_image", "x_cels_table", "x_routes", "x_frames_vs_spec"], "The three routes (AsepriteFile::cel, Frame::layer, Layer::frame) and the cel accessors frame / layer / is_empty are Verus contracts on the real text: all three construct the cel id (frame, layer) of the same file, so coordinates and emptiness agree by construction (swapped arguments fail the postcondition). Offset, user data and images go through the cel table and the renderer: compared on seeded sprites with frames != layers; single-visible-layer frame == cel image and tilemap image == cel image are bounded-exec.")
+prop("C19", "proof", ROUTES_V + [a for a in ACC_V if a.startswith("v_acc_cel_")] + ["v_layer_image", "v_write_cel", "v_frame_image", "x_cels_table", "x_routes", "x_frames_vs_spec"], "The three routes (AsepriteFile::cel, Frame::layer, Layer::frame) and the cel accessors frame / layer / is_empty are Verus contracts on the real text: all three construct the cel id (frame, layer) of the same file, so coordinates and emptiness agree by construction (swapped arguments fail the postcondition). Offset, user data and images go through the cel table and the renderer: compared on seeded sprites with frames != layers; single-visible-layer frame == cel image and tilemap image == cel image are bounded-exec.")
